@@ -109,8 +109,8 @@ var properties = map[string][]harnessSpec{
 	"C05": {
 		{Name: "astconv.VerifC05RoundTrip", Marks: []string{"end", "needs-double-accidental"}},
 		{Name: "astconv.VerifC05KeyChange", Marks: []string{"end", "carrier-rejected"}},
-		{Name: "astconv.VerifC05Classifier", Quick: map[string]int{"C05.maxChords": 2, "C05.preemptions": 1}, Thorough: map[string]int{"C05.maxChords": 3, "C05.preemptions": 2}, Marks: []string{"end", "classified", "refused"}},
-		{Name: "play.VerifC05Transpose", Quick: map[string]int{"C05.maxDegree": 9}, Thorough: map[string]int{"C05.maxDegree": 15}, Marks: []string{"end", "rejected"}},
+		{Name: "astconv.VerifC05Classifier", Quick: map[string]int{"C05.maxChords": 2, "C05.preemptions": 1}, Thorough: map[string]int{"C05.maxChords": 2, "C05.preemptions": 2}, Marks: []string{"end", "classified", "refused"}},
+		{Name: "play.VerifC05Transpose", Quick: map[string]int{"C05.maxDegree": 9}, Thorough: map[string]int{"C05.maxDegree": 12}, Marks: []string{"end", "rejected"}},
 	},
 	"C11": {
 		{Name: "input/ast.VerifC11Trivia", Quick: map[string]int{"C11.window": 3}, Thorough: map[string]int{"C11.window": 4}, Marks: end, MustTerminate: true},
@@ -141,7 +141,7 @@ var properties = map[string][]harnessSpec{
 		{Name: "cmd.VerifC12InfoOutputs", Marks: end},
 		{Name: "cmd.VerifC12EmptyInputPaths", Marks: end},
 		{Name: "cmd.VerifC12DebugFlag", Marks: []string{"end", "failed"}},
-		{Name: "astconv.VerifC05Classifier", Quick: map[string]int{"C05.maxChords": 2, "C05.preemptions": 1}, Thorough: map[string]int{"C05.maxChords": 3, "C05.preemptions": 2}, Marks: []string{"end", "classified", "refused"}},
+		{Name: "astconv.VerifC05Classifier", Quick: map[string]int{"C05.maxChords": 2, "C05.preemptions": 1}, Thorough: map[string]int{"C05.maxChords": 2, "C05.preemptions": 2}, Marks: []string{"end", "classified", "refused"}},
 		{Name: "op.VerifC14Chain", Quick: map[string]int{"C14.maxLen": 2}, Thorough: map[string]int{"C14.maxLen": 3}, Marks: end},
 	},
 	"C08": {
